@@ -17,78 +17,90 @@ Qed.
 Lemma in_r1_false s sid : (forall c, lookup (drops s) sid <> Some (R1 c)) -> in_r1 s sid = false.
 Proof. unfold in_r1. intros H. destruct (lookup (drops s) sid) as [[|c]|]; try reflexivity. destruct (H c eq_refl). Qed.
 
+Lemma in_r1_nil s sid : drops s = [] -> in_r1 s sid = false.
+Proof. unfold in_r1. now intros ->. Qed.
+
 Section Main.
 Variable matches : nat -> msg -> bool.
 Notation reach := (Model.reach matches).
 Notation step := (Model.step matches).
 
 Theorem delivery_partial tr s sid st : reach tr s -> has_clone tr = false ->
-  lookup (streams s) sid = Some st -> (forall c, lookup (drops s) sid <> Some (R1 c)) -> reader s <> RStopped ->
+  lookup (streams s) sid = Some st -> reader s <> RStopped ->
   msgs (s_got st) ++ msgs (unread (chan_at s (s_ch st)) sid) =
   filter (accepts matches (skey st)) (skipn (s_from st) (firstn (seen s (s_ch st)) (incoming s))).
-Proof. intros Hr Hc Hl Hd Hrd. apply (delivery_no_clone matches tr s sid st); try assumption; [now apply no_clone_iff | now apply in_r1_false]. Qed.
+Proof.
+  intros Hr Hc Hl Hrd. apply (delivery_no_clone matches tr s sid st); try assumption; [now apply no_clone_iff|].
+  apply in_r1_nil. exact (drops_nil matches tr s Hr).
+Qed.
 
 Theorem delivery_partial_quiescent tr s sid st : reach tr s -> has_clone tr = false ->
-  lookup (streams s) sid = Some st -> (forall c, lookup (drops s) sid <> Some (R1 c)) ->
-  reader s = RIdle -> unread (chan_at s (s_ch st)) sid = [] ->
+  lookup (streams s) sid = Some st -> reader s = RIdle -> unread (chan_at s (s_ch st)) sid = [] ->
   msgs (s_got st) = filter (accepts matches (skey st)) (skipn (s_from st) (incoming s)).
 Proof.
-  intros Hr Hc Hl Hd Hrd Hu. assert (Hns : reader s <> RStopped) by congruence.
-  pose proof (delivery_partial _ _ _ _ Hr Hc Hl Hd Hns) as H. rewrite Hu in H. cbn in H. rewrite app_nil_r in H.
+  intros Hr Hc Hl Hrd Hu. assert (Hns : reader s <> RStopped) by congruence.
+  pose proof (delivery_partial _ _ _ _ Hr Hc Hl Hns) as H. rewrite Hu in H. cbn in H. rewrite app_nil_r in H.
   unfold seen, pending_on in H. rewrite Hrd, Nat.sub_0_r, firstn_all in H. exact H.
 Qed.
 
-Theorem registered tr s sid st : reach tr s -> has_clone tr = false ->
-  lookup (streams s) sid = Some st -> (forall c, lookup (drops s) sid <> Some (R1 c)) ->
+Theorem registered tr s sid st : reach tr s -> has_clone tr = false -> lookup (streams s) sid = Some st ->
   In (skey st, s_ch st) (senders s) \/ reader s = RStopped.
-Proof. intros Hr Hc Hl Hd. apply (registered_live matches tr s sid st); try assumption; [now apply no_clone_iff | now apply in_r1_false]. Qed.
+Proof.
+  intros Hr Hc Hl. apply (registered_live matches tr s sid st); try assumption; [now apply no_clone_iff|].
+  apply in_r1_nil. exact (drops_nil matches tr s Hr).
+Qed.
+
+(* the holders of a rule: its streams, the remove_match calls (queued by Drop or started by async_drop) that have not yet taken
+   `subscriptions`, and the add_match call that is creating the entry *)
+Definition holders_of (s : sys) (r : nat) : nat :=
+  cnt (fun p => rule_is r (snd p)) (streams s) + cnt (holds_task r) (tasks s) + cnt (holds_add r) (adds s).
+
+Lemma holders_of_eq s r : drops s = [] -> holders s r = holders_of s r.
+Proof.
+  intros Hd. unfold holders, holders_of. f_equal. f_equal. apply cnt_ext. intros [sid st] _. unfold holds_stream. cbn [fst snd].
+  rewrite (in_r1_nil s sid Hd). cbn [negb]. apply andb_true_r.
+Qed.
 
 Theorem share_partial tr s : reach tr s -> has_clone tr = false ->
-  (forall r, match lookup (subs s) r with Some e => e_ref e = holders s r | None => holders s r = 0 end) /\
-  (forall sid st r e, lookup (streams s) sid = Some st -> s_rule st = Some r -> in_r1 s sid = false -> lookup (subs s) r = Some e ->
-     s_ch st = e_ch e).
-Proof. intros Hr Hc. apply (share_reach matches tr); [assumption | now apply no_clone_iff]. Qed.
+  (forall r, match lookup (subs s) r with Some e => e_ref e = holders_of s r | None => holders_of s r = 0 end) /\
+  (forall sid st r e, lookup (streams s) sid = Some st -> s_rule st = Some r -> lookup (subs s) r = Some e -> s_ch st = e_ch e).
+Proof.
+  intros Hr Hc. pose proof (drops_nil matches tr s Hr) as Hd. destruct (share_reach matches tr s Hr (proj1 (no_clone_iff tr) Hc)) as [C G]. split.
+  - intros r. rewrite <- (holders_of_eq s r Hd). apply C.
+  - intros sid st r e Hl Hru He. eapply G; try eassumption. now apply in_r1_nil.
+Qed.
 
-Theorem progress_partial tr s it c todo : reach tr s -> match drops s with [] => false | _ => true end = false ->
-  reader s = RPush it (c :: todo) -> try_push it (chan_at s c) = PFull ->
+(* back-pressure, at full strength: a reader waiting for room waits behind a stream that the application can poll *)
+Theorem progress_full tr s it c todo : reach tr s -> reader s = RPush it (c :: todo) -> try_push it (chan_at s c) = PFull ->
   exists sid st s', lookup (streams s) sid = Some st /\ s_ch st = c /\ step (LPoll sid) s = Some s'.
-Proof. intros Hr Hk. apply (progress matches tr); [assumption|]. now destruct (drops s). Qed.
+Proof. intros Hr. apply (progress matches tr); [assumption|]. exact (drops_nil matches tr s Hr). Qed.
+
+Theorem no_async_drop tr s sid : reach tr s -> drops s = [] /\ step (LDropSubs sid) s = None /\ step (LDropSender sid) s = None.
+Proof. intros Hr. split; [exact (drops_nil matches tr s Hr) | exact (async_drop_labels_dead matches tr s sid Hr)]. Qed.
 
 End Main.
 
 (* ---- the full statements fail on the code as it is ---- *)
 Theorem delivery_full_refuted :
   ~ (forall matches tr s sid st, Model.reach matches tr s ->
-       lookup (streams s) sid = Some st -> (forall c, lookup (drops s) sid <> Some (R1 c)) -> reader s <> RStopped ->
+       lookup (streams s) sid = Some st -> reader s <> RStopped ->
        msgs (s_got st) ++ msgs (unread (chan_at s (s_ch st)) sid) =
        filter (accepts matches (skey st)) (skipn (s_from st) (firstn (seen s (s_ch st)) (incoming s)))).
 Proof.
   intros H. destruct clone_misses as (Hr & st & Hl & Hd & Hrd & _ & Hu & Hf & Hi & Ha & Hg).
-  assert (Hnd : forall c, lookup (drops clone_state) 0 <> Some (R1 c)) by (intros c; rewrite Hd; discriminate).
   assert (Hns : reader clone_state <> RStopped) by (rewrite Hrd; discriminate).
-  specialize (H all_match clone_trace clone_state 0 st Hr Hl Hnd Hns). rewrite Hu, Hg, Hf, Hi in H. unfold seen, pending_on in H. rewrite Hrd, Hi in H.
+  specialize (H all_match clone_trace clone_state 0 st Hr Hl Hns). rewrite Hu, Hg, Hf, Hi in H. unfold seen, pending_on in H. rewrite Hrd, Hi in H.
   cbn [length Nat.sub firstn skipn filter msgs flat_map app] in H. rewrite Ha in H. discriminate.
 Qed.
 
 Theorem share_full_refuted :
-  exists tr s r e, Model.reach all_match tr s /\ lookup (subs s) r = Some e /\ e_ref e <> holders s r.
+  exists tr s r e, Model.reach all_match tr s /\ lookup (subs s) r = Some e /\ e_ref e <> holders_of s r.
 Proof.
   pose (tr := [LAddStart 0 0 (Some 2); LAddCheck 0; LAddSubs 0; LAddSender 0; LClone 0 1]).
   destruct (Model.exec all_match tr init) as [s|] eqn:E; [|vm_compute in E; discriminate].
   exists tr, s, 0. vm_compute in E. inversion E; subst s. eexists. split; [apply exec_reach; vm_compute; reflexivity|]. split; [vm_compute; reflexivity|].
   vm_compute. discriminate.
 Qed.
-
-Theorem progress_full_refuted :
-  ~ (forall matches tr s it c todo, Model.reach matches tr s -> reader s = RPush it (c :: todo) -> try_push it (chan_at s c) = PFull ->
-       exists sid st s', lookup (streams s) sid = Some st /\ s_ch st = c /\ Model.step matches (LPoll sid) s = Some s').
-Proof.
-  intros H. destruct (H all_match wedge_trace wedge_state (IMsg (sig 2)) 2 [] (exec_reach _ _ _ wedge_exec) eq_refl eq_refl) as (sid & st & s' & Hl & _ & Hp).
-  destruct sid as [|sid]; [vm_compute in Hp; discriminate | vm_compute in Hl; discriminate].
-Qed.
-
-Theorem wedge_reached : Model.reach all_match wedge_trace wedge_state /\ wedged wedge_state 0 2.
-Proof. split; [apply exec_reach, wedge_exec | exact wedge_wedged]. Qed.
 
 (* ---- non-vacuity: a history with two rules and three messages, rule r matches the messages whose member is r ---- *)
 Definition by_member : nat -> msg -> bool := fun r m => Nat.eqb (m_member m) r.
@@ -113,3 +125,15 @@ Lemma ex_facts :
 Proof.
   split; [apply exec_reach, ex_exec|]. vm_compute. repeat split; try reflexivity; eexists; repeat split; reflexivity.
 Qed.
+
+(* ---- the history that used to end in the async_drop deadlock (queue of 1 full, the reader waiting for room in it, then
+   async_drop of that stream) now runs on: the drop releases the receiver, the reader's push goes ahead, remove_match completes ---- *)
+Definition former_deadlock_trace : list label :=
+  [LAddStart 0 0 (Some 1); LAddCheck 0; LAddSubs 0; LAddSender 0;
+   LArrive (IMsg (sig 1)); LRead; LFan [0; 2]; LPush; LPush; LNext;
+   LArrive (IMsg (sig 2)); LRead; LFan [0; 2]; LPush;
+   LDropStart 0; LPush; LNext; LTaskSubs 0; LTaskSender 0].
+Lemma former_deadlock_runs :
+  exists s, Model.exec all_match former_deadlock_trace init = Some s /\ reader s = RIdle /\ tasks s = [] /\ subs s = [] /\
+            subs_busy s = false /\ senders s = [(KAll, 0); (KRet, 1); (KErr, 1)].
+Proof. eexists. split; [vm_compute; reflexivity|]. vm_compute. repeat split; reflexivity. Qed.
